@@ -152,7 +152,7 @@ def run(ctx):
         "juxtaposition as product, signs, function macros); it is audited by reading, not by a printer/parser theorem",
         "SymPy 1.14 LatexPrinter as runtime of the printer (_print_Pow, _print_Float, _needs_mul_brackets, ...)")
     ctx.assume("a Float leaf denotes the decimal it carries at its declared precision (15 significant digits)",
-        "distinct symbols that share a LaTeX display name inside one formula are identified (listed in coverage)",
+        "one value per printed name: the first object printed under a LaTeX display name owns its variable; a DIFFERENT symbol of the same category (plain symbols/quantities, bases of indexed families, heads of applied functions) printed under the same name gets a variable of its own that no rendering can mention, so such an equation is refuted, and the clash is also reported per equation (C18:name-clash); a symbol and an indexed base may share a name (m = Sum(m[i], i))",
         "the imaginary unit i, \\infty and heads outside the elementary functions are uninterpreted",
         "value equality is stated on the domain of definition of the ORIGINAL expression over the reals",
         "the fuel of the LaTeX reader (8 * tokens + 8) is generous but, unlike CodeSyntax, not proved sufficient: an "
